@@ -44,3 +44,13 @@ Record site := mk_site {
   s_suffix : name;
   s_escaped : bool
 }.
+
+(* A name-keyed LOOKUP in emit/** or lower/**: `<table>.get(key)` / `.contains(key)` / `.contains_key(key)`.
+   The tables (function registry, struct/enum names, field tables, ...) are filled with the plain Incan
+   name. [l_escaped] says whether the key expression is derived from `escape_keyword` (the spelling used in
+   the generated Rust) instead of the plain name. *)
+Record lookup := mk_lookup {
+  l_id : string;
+  l_table : string;
+  l_escaped : bool
+}.
